@@ -245,6 +245,17 @@ func runC01(c *Ctx) error {
 		}
 		return nil
 	}
+	// directed: a named fragment selecting an object field, spread at two places, each time followed by another
+	// fragment that selects the same alias with a sub-selection of its own: the fragment's selection is the first
+	// occurrence of two different merges (3 and 5 sub-selections: slices with spare capacity after parsing)
+	for _, q := range c01SharedFirstOccurrence() {
+		for k := 0; k < 6; k++ {
+			g := &xGen{r: NewRand(uint64(900 + k))}
+			root := g.node("Q", 3)
+			c01One(c, m, root, q, k%2 == 0)
+			c.Rep.Count("directed:shared_first_occurrence")
+		}
+	}
 	n := c.N(600, 30000)
 	for i := 0; i < n; i++ {
 		g := &xGen{r: c.Rng}
@@ -253,4 +264,33 @@ func runC01(c *Ctx) error {
 		c01One(c, m, root, q, c.Rng.Bool())
 	}
 	return nil
+}
+
+func c01SharedFirstOccurrence() []*xQuery {
+	leafNames := []string{"pEx", "qEx", "pBa", "okBa", "pBf", "pXp"}
+	var out []*xQuery
+	for _, of := range []string{"bsEx", "bsBa", "bEx", "bIn", "bvEx"} {
+		for _, k := range []int{3, 5} {
+			for _, roots := range [][2]string{{"a", "aXp"}, {"as", "a"}} {
+				q := &xQuery{Defs: map[string]*xFrag{}, Vars: map[string]interface{}{}, alias: map[string]int{}}
+				fsub := &xSelSet{}
+				for i := 0; i < k; i++ {
+					f := xFieldByName["B."+leafNames[i]]
+					fsub.Sels = append(fsub.Sels, &xSel{Alias: f.Name, Field: f})
+				}
+				objF := xFieldByName["A."+of]
+				def := &xFrag{On: "A", Named: "F1", Set: &xSelSet{Sels: []*xSel{{Alias: of, Field: objF, Sub: fsub}}}}
+				q.Defs["F1"] = def
+				place := func(rootField string, extra string) *xSel {
+					ef := xFieldByName["B."+extra]
+					inline := &xFrag{On: "A", Set: &xSelSet{Sels: []*xSel{{Alias: of, Field: objF, Sub: &xSelSet{Sels: []*xSel{{Alias: "k_" + extra, Field: ef}}}}}}}
+					return &xSel{Alias: rootField, Field: xFieldByName["Q."+rootField], Sub: &xSelSet{Frags: []*xFrag{{On: "A", Set: def.Set, Named: "F1"}, inline}}}
+				}
+				q.Set = &xSelSet{Sels: []*xSel{place(roots[0], "qEx"), place(roots[1], "pEx")}}
+				q.Text = q.render()
+				out = append(out, q)
+			}
+		}
+	}
+	return out
 }
